@@ -11,7 +11,7 @@ def GetPostS (gh : Gh) (order : Nat) : Res Nat → Gh → Prop
   | .error e, gh' => e = .memory ∧ gh' = gh
 
 def GetPostH (g : Geom) (gh : Gh) (hNum : Nat) : Res Nat → Gh → Prop
-  | .ok frame, gh' => frame % g.hugeFrames = 0 ∧ (frame / g.hugeFrames) % g.treeHuge + hNum ≤ g.treeHuge ∧
+  | .ok frame, gh' => (frame % g.hugeFrames = 0 ∧ (frame / g.hugeFrames) % hNum = 0) ∧ (frame / g.hugeFrames) % g.treeHuge + hNum ≤ g.treeHuge ∧
       gh' = gh.addH (frame / g.hugeFrames) hNum ∧ ∀ x, inBlockF (frame / g.hugeFrames) hNum x = true → gh.ownH x = false
   | .error e, gh' => e = .memory ∧ gh' = gh
 
@@ -95,7 +95,8 @@ theorem get_goH_safeL (ok : GeomOk16 g) (gh : Gh) (t hNum childOff q : Nat) (hq 
       have hdiv : (t * g.treeFrames + i * g.hugeFrames) / g.hugeFrames = t * g.treeHuge + i := by
         rw [hframe]; exact Nat.mul_div_cancel _ okg.hf_pos
       show GetPostH g gh hNum (.ok (t * g.treeFrames + i * g.hugeFrames)) gh1
-      refine ⟨by rw [hframe]; exact Nat.mul_mod_left _ _, ?_, ?_, ?_⟩
+      refine ⟨⟨by rw [hframe]; exact Nat.mul_mod_left _ _, ?_⟩, ?_, ?_, ?_⟩
+      · rw [hdiv, hq, Nat.mul_comm t, Nat.mul_assoc, Nat.mul_add_mod]; exact hi_mod
       · rw [hdiv, Nat.mul_comm, Nat.mul_add_mod, Nat.mod_eq_of_lt hi_lt]; exact hfit
       · rw [hdiv]; exact h1.1
       · rw [hdiv]; exact h1.2
